@@ -115,7 +115,7 @@ type runner struct {
 
 // settle waits until the outstanding reader returned (result, true) or is parked (_, false).
 func (r *runner) settle(tag string) string {
-	limit := time.Now().Add(deadline(3 * time.Second))
+	limit := time.Now().Add(deadline(30 * time.Second))
 	for spins := 0; ; spins++ {
 		select {
 		case res := <-r.pending:
@@ -176,7 +176,7 @@ func (r *runner) cleanup() {
 		r.p.BreakWithError(errOf(9999))
 		select {
 		case <-r.pending:
-		case <-time.After(deadline(3 * time.Second)):
+		case <-time.After(deadline(30 * time.Second)):
 			hangs++
 		}
 		r.pending = nil
@@ -280,7 +280,7 @@ func execStress(op string) string {
 	case r := <-rdone:
 		<-wdone
 		return vh.Hex(r.got) + ";err" + codeOf(r.err)
-	case <-time.After(deadline(10 * time.Second)):
+	case <-time.After(deadline(30 * time.Second)):
 		hangs++
 		close(stop)
 		p.BreakWithError(errOf(9999))
@@ -325,6 +325,11 @@ func newRunner(fb *pipe.FixedBuffer) *runner {
 	return r
 }
 
+// newSizedRunner uses the other constructor, NewPipeWithSize (the buffer is then only visible through the hook).
+func newSizedRunner(size int) *runner {
+	return &runner{p: pipe.NewPipeWithSize(uint32(size))}
+}
+
 // do executes one token on this pipe; ok=false means the op line is malformed.
 func (r *runner) do(t string, shared *sync.Pool) (res string, ok bool) {
 	f := strings.SplitN(t, ":", 2)
@@ -338,6 +343,9 @@ func (r *runner) do(t string, shared *sync.Pool) (res string, ok bool) {
 			return "", false
 		}
 		n, e := r.p.Write(d)
+		for i := range d { // the caller may reuse its slice: the pipe must have copied what it took
+			d[i] ^= 0xa5
+		}
 		ec := "none"
 		if e != nil {
 			ec = codeOf(e)
@@ -363,8 +371,19 @@ func (r *runner) do(t string, shared *sync.Pool) (res string, ok bool) {
 		r.p.BreakWithError(errOf(code))
 		return "b" + r.auto(), true
 	case "rel":
+		// with a single P, sync.Pool's Put-then-Get on one goroutine is deterministic: the Get returns
+		// exactly what Release Put (or nil if it Put nothing)
+		old := runtime.GOMAXPROCS(1)
 		r.p.Release(shared)
+		x := shared.Get()
+		runtime.GOMAXPROCS(old)
 		r.released = true
+		switch {
+		case x == nil:
+			return "rel=noput", true
+		case r.fb != nil && x != pipe.PipeBuffer(r.fb):
+			return "rel=wrongbuf", true
+		}
 		return "rel", true
 	case "dis":
 		return "dis=" + strconv.Itoa(r.p.Discard()), true
@@ -407,10 +426,15 @@ func (r *runner) do(t string, shared *sync.Pool) (res string, ok bool) {
 		}
 	case "len":
 		// only parked/absent readers exist between scripted steps, so reading Len here is race free
-		if r.released {
+		// (the hook takes the mutex; the harness-held FixedBuffer, when there is one, must agree)
+		n := r.p.VerifC21Len()
+		if n < 0 {
 			return "len=nil", true
 		}
-		return "len=" + strconv.Itoa(r.fb.Len()), true
+		if r.fb != nil && !r.released && r.fb.Len() != n {
+			return "len=INCONSISTENT", true
+		}
+		return "len=" + strconv.Itoa(n), true
 	}
 	return "", false
 }
@@ -474,7 +498,130 @@ func execLifecycle(op string) string {
 	return strings.Join(res, ";")
 }
 
+// execFixedBuffer drives the exported FixedBuffer directly: F;cap=N;w:<hex>;r:<n>;len;reset
+func execFixedBuffer(op string) string {
+	toks := strings.Split(op, ";")
+	if len(toks) < 2 || !strings.HasPrefix(toks[1], "cap=") {
+		return "bad-op"
+	}
+	capN, err := strconv.Atoi(toks[1][4:])
+	if err != nil || capN < 0 || capN > 1<<16 {
+		return "bad-op"
+	}
+	fb := pipe.NewFixedBuffer(make([]byte, capN))
+	var res []string
+	for _, t := range toks[2:] {
+		f := strings.SplitN(t, ":", 2)
+		switch f[0] {
+		case "w":
+			if len(f) != 2 {
+				return "bad-op"
+			}
+			d, ok := vh.UnHex(f[1])
+			if !ok {
+				return "bad-op"
+			}
+			n, e := fb.Write(d)
+			for i := range d {
+				d[i] ^= 0xa5
+			}
+			ec := "none"
+			if e != nil {
+				ec = codeOf(e)
+			}
+			res = append(res, fmt.Sprintf("w=%d,%s", n, ec))
+		case "r":
+			if len(f) != 2 {
+				return "bad-op"
+			}
+			n, e := strconv.Atoi(f[1])
+			if e != nil || n < 0 || n > 1<<16 {
+				return "bad-op"
+			}
+			buf := make([]byte, n)
+			k, err := fb.Read(buf)
+			ec := "none"
+			if err != nil {
+				ec = codeOf(err)
+			}
+			res = append(res, fmt.Sprintf("r=%s,%s", vh.Hex(buf[:k]), ec))
+		case "len":
+			res = append(res, "len="+strconv.Itoa(fb.Len()))
+		case "reset":
+			fb.Reset()
+			res = append(res, "reset")
+		default:
+			return "bad-op"
+		}
+	}
+	return strings.Join(res, ";")
+}
+
+func genFixedBuffer(r *vh.Rand) string {
+	capN := []int{0, 1, 2, 3, 4, 5, 8}[r.Intn(7)]
+	var sb strings.Builder
+	fmt.Fprintf(&sb, "F;cap=%d", capN)
+	buffered, rd, wpos := 0, 0, 0
+	next := byte(r.Intn(256))
+	for i, n := 0, r.Range(2, 20); i < n; i++ {
+		switch k := r.Intn(10); {
+		case k < 5:
+			var l int
+			switch r.Intn(5) {
+			case 0:
+				l = capN - buffered
+			case 1:
+				l = capN - buffered + 1
+			case 2:
+				l = capN - wpos
+			case 3:
+				l = capN - wpos + 1
+			default:
+				l = r.Range(0, capN+1)
+			}
+			if l < 0 {
+				l = 0
+			}
+			d := make([]byte, l)
+			for j := range d {
+				d[j] = next
+				next++
+			}
+			fmt.Fprintf(&sb, ";w:%s", vh.Hex(d))
+			if rd > 0 && l > capN-wpos {
+				wpos -= rd
+				rd = 0
+			}
+			if l > capN-wpos {
+				l = capN - wpos
+			}
+			wpos += l
+			buffered += l
+		case k < 8:
+			l := []int{0, 1, buffered, buffered + 1, r.Range(0, capN+1)}[r.Intn(5)]
+			fmt.Fprintf(&sb, ";r:%d", l)
+			if l > buffered {
+				l = buffered
+			}
+			buffered -= l
+			rd += l
+			if buffered == 0 {
+				rd, wpos = 0, 0
+			}
+		case k < 9:
+			sb.WriteString(";len")
+		default:
+			sb.WriteString(";reset")
+			buffered, rd, wpos = 0, 0, 0
+		}
+	}
+	return sb.String()
+}
+
 func exec(op string) (out string) {
+	if strings.HasPrefix(op, "F;") {
+		return execFixedBuffer(op)
+	}
 	if strings.HasPrefix(op, "S;") {
 		return execStress(op)
 	}
@@ -482,19 +629,26 @@ func exec(op string) (out string) {
 		return execLifecycle(op)
 	}
 	toks := strings.Split(op, ";")
-	if len(toks) < 1 || !strings.HasPrefix(toks[0], "cap=") {
+	sized := strings.HasPrefix(toks[0], "size=")
+	if len(toks) < 1 || !(strings.HasPrefix(toks[0], "cap=") || sized) {
 		return "bad-op"
 	}
-	capN, err := strconv.Atoi(toks[0][4:])
+	capN, err := strconv.Atoi(toks[0][strings.IndexByte(toks[0], '=')+1:])
 	if err != nil || capN < 0 || capN > 1<<16 {
 		return "bad-op"
 	}
 	outstanding = 0
-	r := newRunner(pipe.NewFixedBuffer(make([]byte, capN)))
+	var r *runner
+	if sized {
+		r = newSizedRunner(capN)
+	} else {
+		r = newRunner(pipe.NewFixedBuffer(make([]byte, capN)))
+	}
 	defer r.cleanup()
+	shared := &sync.Pool{}
 	var res []string
 	for _, t := range toks[1:] {
-		o, ok := r.do(t, r.pool)
+		o, ok := r.do(t, shared)
 		if !ok {
 			return "bad-op"
 		}
@@ -645,13 +799,20 @@ func gen(r *vh.Rand) string {
 	if r.Chance(1, 5) {
 		return genLifecycle(r)
 	}
+	if r.Chance(1, 12) {
+		return genFixedBuffer(r)
+	}
 	s := &shadow{}
 	s.capN = []int{0, 1, 2, 3, 4, 5, 7, 8, 16}[r.Intn(9)]
 	if r.Chance(1, 6) {
 		s.capN = r.Range(1, 40)
 	}
 	var sb strings.Builder
-	fmt.Fprintf(&sb, "cap=%d", s.capN)
+	if r.Chance(1, 5) {
+		fmt.Fprintf(&sb, "size=%d", s.capN) // NewPipeWithSize instead of NewPipeFromBufferPool
+	} else {
+		fmt.Fprintf(&sb, "cap=%d", s.capN)
+	}
 	steps := r.Range(3, 24)
 	next := byte(r.Intn(256))
 	for i := 0; i < steps; i++ {
